@@ -1,0 +1,79 @@
+//go:build verif
+
+package optimism
+
+import (
+	"context"
+
+	"github.com/jackc/pgx/v4/pgxpool"
+
+	"github.com/shutter-network/rolling-shutter/rolling-shutter/keyper/epochkghandler"
+	"github.com/shutter-network/rolling-shutter/rolling-shutter/keyperimpl/optimism/config"
+	"github.com/shutter-network/rolling-shutter/rolling-shutter/medley/broker"
+	"github.com/shutter-network/rolling-shutter/rolling-shutter/medley/chainsync"
+	syncclient "github.com/shutter-network/rolling-shutter/rolling-shutter/medley/chainsync/client"
+	syncevent "github.com/shutter-network/rolling-shutter/rolling-shutter/medley/chainsync/event"
+)
+
+// VerifOpSync gives the verification harness in /verif (stage OpSync of C15) access to the
+// optimism keyper's chain-sync handlers without starting the keyper core (P2P, shuttermint,
+// HTTP). Add-only, compiled only with -tags verif.
+type VerifOpSync struct {
+	kpr *Keyper
+}
+
+// VerifOpSyncNew builds a Keyper with exactly the fields Keyper.Start fills in before it makes
+// the chain-sync client: config, database pool and the decryption trigger channel.
+func VerifOpSyncNew(
+	c *config.Config,
+	dbpool *pgxpool.Pool,
+	trigger chan<- *broker.Event[*epochkghandler.DecryptionTrigger],
+) *VerifOpSync {
+	return &VerifOpSync{kpr: &Keyper{config: c, dbpool: dbpool, trigger: trigger}}
+}
+
+// NewBlock is the handler Keyper.Start registers with chainsync.WithSyncNewBlock.
+func (v *VerifOpSync) NewBlock(ctx context.Context, ev *syncevent.LatestBlock) error {
+	return v.kpr.newBlock(ctx, ev)
+}
+
+// NewKeyperSet is the handler Keyper.Start registers with chainsync.WithSyncNewKeyperSet.
+func (v *VerifOpSync) NewKeyperSet(ctx context.Context, ev *syncevent.KeyperSet) error {
+	return v.kpr.newKeyperSet(ctx, ev)
+}
+
+// NewL2Client makes the chain-sync client with the option list of Keyper.Start, except that the
+// RPC client is given instead of dialled from the configured URL. wrapBlock / wrapKeyperSet (may
+// be nil) let the harness observe the calls of the two handlers; extra options (a logger, further
+// handlers) are appended.
+func (v *VerifOpSync) NewL2Client(
+	ctx context.Context,
+	client syncclient.Client,
+	wrapBlock func(syncevent.BlockHandler) syncevent.BlockHandler,
+	wrapKeyperSet func(syncevent.KeyperSetHandler) syncevent.KeyperSetHandler,
+	extra ...chainsync.Option,
+) (*chainsync.Client, error) {
+	var nb syncevent.BlockHandler = v.kpr.newBlock
+	var nk syncevent.KeyperSetHandler = v.kpr.newKeyperSet
+	if wrapBlock != nil {
+		nb = wrapBlock(nb)
+	}
+	if wrapKeyperSet != nil {
+		nk = wrapKeyperSet(nk)
+	}
+	opts := []chainsync.Option{
+		chainsync.WithClient(client),
+		chainsync.WithSyncNewBlock(nb),
+		chainsync.WithSyncNewKeyperSet(nk),
+	}
+	if v.kpr.config != nil && v.kpr.config.Optimism != nil && v.kpr.config.Optimism.PrivateKey != nil {
+		opts = append(opts, chainsync.WithPrivateKey(v.kpr.config.Optimism.PrivateKey.Key))
+	}
+	opts = append(opts, extra...)
+	c, err := chainsync.NewClient(ctx, opts...)
+	if err != nil {
+		return nil, err
+	}
+	v.kpr.l2Client = c
+	return c, nil
+}
